@@ -88,6 +88,14 @@ PROPS = {
   "rule": "the REAL binary: make-iso on generated trees (both modes, incl. unusable TITLE_ID) and decrypt redump/3k3y on generated encrypted images (valid and invalid tables, already-decrypted 3k3y) x output to a new path, to '-', to an existing file, to an existing directory; output bytes compared with the Lean model's image / plaintext and the crypto/aes reference; pre/post state of pre-existing targets; the decrypted output is then served from /PS3ISO and from /other and read back",
   "assumptions": ["TOCTOU window between the existence test and the open of the output file is outside the model", "kong's argument handling (existingdir, *os.File) is trusted"] + _CONN_ASSUME,
  },
+ "C12": {
+  "props_modules": ["Ps3.Props.C12"],
+  "race_thorough": True,
+  "streams": [{"name": "c12", "bad_obs": BAD_OBS}],
+  "rule": "rounds of 2/4/8 (thorough: up to 64) clients running random sessions CONCURRENTLY against one server (shared plain files, the same generated image, an encrypted image, private writable subtrees), GOMAXPROCS cycled through 1,2,4,16; every client's full response stream is compared with the sequential model's prediction for that client alone; handle ledger after all clients finished. thorough: the harness and the server code are built with -race and any race report is a violation",
+  "assumptions": ["data-race freedom in Go's memory model and the scheduler are runtime behaviour: observed (race detector in the thorough tier), not proved",
+                  "sessions avoid enumerating directories they mutate (OS enumeration order after a change is not modelled)"] + _CONN_ASSUME,
+ },
  "C13": {
   "props_modules": ["Ps3.Props.C13"],
   "streams": [{"name": "c13"}, {"name": "conn", "bad_obs": BAD_OBS}],
@@ -156,6 +164,8 @@ LEVEL_TEXT = {
         "Tie: the full product of layouts (exhaustive in thorough) against an independent decision table.",
  "C20": "Theorems: a copy loop with any chunk sizes over a source whose reads are slices writes exactly that slice, hence make-iso output = the canonical image of C09 (the bytes the server announces and serves); decrypt output = h zero bytes ++ reference plaintext from h on (C10); a blanked watermark area is never recognised as 3k3y again (served back unchanged); the output-file decision never selects 'create' for an existing path and '-' is stdout. "
         "Tie: the real binary's files and stdout against the model and the crypto/aes reference, pre/post state of existing targets, served-back comparison.",
+ "C12": "Logic proved, runtime observed. Theorems on the multi-connection model: with writing off, for any number of connections and ANY interleaving of their requests, each connection's response stream equals its stream when served alone (induction over the schedule; a step of one connection never touches another's state and leaves the world fixed), hence independence of what others send; every connection starts from the empty state; the shared buffer pool never hands one buffer to two connections under any get/put interleaving. "
+        "Tie: parallel sessions against the sequential prediction, race detector in thorough.",
  "C13": "Logic proved, runtime observed. Theorems: State.Close releases all three slots whatever they hold; every request keeps at most one handle per slot and a replaced handle is released (slot bookkeeping of OPEN_DIR/OPEN_FILE/CREATE/CLOSEFILE); the judgement predicate accepts the fault-free run, rejects altered bytes and hangs, and a closed connection admits nothing after it; enumeration always terminates (structural recursion over the remaining names). "
         "Tie: single-fault enumeration over every filesystem operation of 6 scenarios judged by that predicate; ledger after every session and after abrupt closes.",
  "C14": "Kernel-checked theorems over the Lean model of ParseIPRange/Contains: byte-wise comparison is numeric comparison, membership is exactly "
